@@ -610,13 +610,24 @@ func (s *Sim) DoCut(o CutOpts) (*RetransmitReport, error) {
 				s.label("resync_extra_sig")
 			}
 		}
-		if err := s.cmpRetransmit(x, got, want); err != nil {
+		// A fee update that is superseded by a later one inside the
+		// same signed batch has no effect on any commitment; lnd does
+		// not retransmit it. Both lists are compared without such
+		// void updates, and the peer is credited with having "seen"
+		// them.
+		wantN, dropped := dropSupersededFees(want)
+		gotN, _ := dropSupersededFees(got)
+		if err := s.cmpRetransmit(x, gotN, wantN); err != nil {
 			return nil, err
+		}
+		if len(got) == len(gotN) && dropped > 0 {
+			m.Recvd[y] += dropped
+			s.label("resync_superseded_fee_dropped")
 		}
 		if oweRev && s.OnRevoke != nil {
 			rev := out[0]
 			if m.LastWasRevoke[x] && oweSig {
-				rev = out[len(want)-1]
+				rev = out[len(gotN)-1]
 			}
 			if r, ok := rev.(*lnwire.RevokeAndAck); ok {
 				s.OnRevoke(x, m.RevsSent[x]-1, r, true)
@@ -626,6 +637,27 @@ func (s *Sim) DoCut(o CutOpts) (*RetransmitReport, error) {
 		s.tracef("%s retransmits %s", sideName(x), describeMsgs(out))
 	}
 	return rep, nil
+}
+
+// dropSupersededFees removes every update_fee that is followed by another
+// update_fee later in the same list.
+func dropSupersededFees(ms []lnwire.Message) ([]lnwire.Message, int) {
+	lastFee := -1
+	for i, m := range ms {
+		if _, ok := m.(*lnwire.UpdateFee); ok {
+			lastFee = i
+		}
+	}
+	var out []lnwire.Message
+	dropped := 0
+	for i, m := range ms {
+		if _, ok := m.(*lnwire.UpdateFee); ok && i != lastFee {
+			dropped++
+			continue
+		}
+		out = append(out, m)
+	}
+	return out, dropped
 }
 
 func describeMsgs(ms []lnwire.Message) string {
